@@ -52,7 +52,7 @@ Chars(ds) == [i \in 1..Len(ds) |-> Ch(ds[i])]
 (* ---- formats ------------------------------------------------------------- *)
 (* [kind: fixed|sci, minInt, group, dec, pct, pre, suf, paren]  *)
 IntCode(f) == IF f.group THEN <<"#", ",", "#", "#", "0">> ELSE [i \in 1..f.minInt |-> "0"]
-Body(f) == IF f.kind = "sci" THEN <<"0", ".", "0", "0", "E", "+", "0", "0">>
+Body(f) == IF f.kind = "sci" THEN <<"0">> \o (IF f.dec > 0 THEN <<".">> \o [i \in 1..f.dec |-> "0"] ELSE <<>>) \o <<"E", "+", "0", "0">>
            ELSE IntCode(f) \o (IF f.dec > 0 THEN <<".">> \o [i \in 1..f.dec |-> "0"] ELSE <<>>) \o (IF f.pct THEN <<"%">> ELSE <<>>)
 Quoted(s) == IF s = <<>> THEN <<>> ELSE <<"\"">> \o s \o <<"\"">>
 Section(f) == Quoted(f.pre) \o Body(f) \o Quoted(f.suf)
@@ -68,19 +68,20 @@ FixedText(ds, k, f, D, G) ==
       zero |-> AllZero(rr[1]) /\ AllZero(rr[2])]
 
 TwoDigits(n) == IF n < 10 THEN <<"0", Ch(n)>> ELSE IF n < 100 THEN <<Ch(n \div 10), Ch(n % 10)>> ELSE <<Ch(n \div 100), Ch((n \div 10) % 10), Ch(n % 10)>>
-SciText(ds, k, D) ==
-  LET m == StripLead(ds) IN
-  IF m = <<>> THEN [text |-> <<"0", D, "0", "0", "E", "+", "0", "0">>, zero |-> TRUE]
-  ELSE LET rr == RoundAt(<<m[1]>>, Tail(m), 2)
+SciText(ds, k, D, dec) ==
+  LET m == StripLead(ds)
+      frac(x) == IF dec > 0 THEN <<D>> \o Chars(x) ELSE <<>> IN
+  IF m = <<>> THEN [text |-> <<"0">> \o frac(Zeros(dec)) \o <<"E", "+", "0", "0">>, zero |-> TRUE]
+  ELSE LET rr == RoundAt(<<m[1]>>, Tail(m), dec)
            carry == Len(rr[1]) = 2
            e == Len(m) - 1 + k + (IF carry THEN 1 ELSE 0)
            lead == IF carry THEN <<1>> ELSE rr[1]
-           fr == IF carry THEN <<0, 0>> ELSE rr[2]
-       IN [text |-> Chars(lead) \o <<D>> \o Chars(fr) \o <<"E", IF e < 0 THEN "-" ELSE "+">> \o TwoDigits(IF e < 0 THEN -e ELSE e), zero |-> FALSE]
+           fr == IF carry THEN Zeros(dec) ELSE rr[2]
+       IN [text |-> Chars(lead) \o frac(fr) \o <<"E", IF e < 0 THEN "-" ELSE "+">> \o TwoDigits(IF e < 0 THEN -e ELSE e), zero |-> FALSE]
 
 (* the formatted text, or no verdict where the statement leaves the display open *)
 Format(neg, ds, k, f, D, G) ==
-  LET b == IF f.kind = "sci" THEN SciText(ds, k, D) ELSE FixedText(ds, k, f, D, G)
+  LET b == IF f.kind = "sci" THEN SciText(ds, k, D, f.dec) ELSE FixedText(ds, k, f, D, G)
       isneg == neg /\ ~AllZero(ds) IN
   IF isneg /\ b.zero THEN [v |-> "nov", why |-> "negative-rounds-to-zero"]
   ELSE IF isneg /\ ~f.paren /\ f.pre # <<>> THEN [v |-> "nov", why |-> "minus-sign-and-literal-prefix"]
@@ -96,7 +97,7 @@ Formats ==
   { Fx(1, g, d, FALSE, <<"x">>, <<>>, FALSE) : g \in BOOLEAN, d \in {0, 2} } \cup
   { Fx(1, g, d, FALSE, <<>>, <<" ", "k", "g">>, FALSE) : g \in BOOLEAN, d \in {0, 1} } \cup
   { Fx(1, g, d, FALSE, <<>>, <<>>, TRUE) : g \in BOOLEAN, d \in {0, 2} } \cup
-  { [kind |-> "sci", minInt |-> 1, group |-> FALSE, dec |-> 2, pct |-> FALSE, pre |-> <<>>, suf |-> <<>>, paren |-> FALSE] }
+  { [kind |-> "sci", minInt |-> 1, group |-> FALSE, dec |-> d, pct |-> FALSE, pre |-> <<>>, suf |-> <<>>, paren |-> FALSE] : d \in 0..2 }
 
 RECURSIVE Mants(_)
 Mants(n) == IF n = 1 THEN {<<d>> : d \in MantDigits \ {0}}
